@@ -50,6 +50,12 @@ pub struct Program {
     /// 0 = finalize(), 1 = identity transformer, 2 = append a foreign element
     pub xml_mode: u8,
     pub no_finalize: bool,
+    /// image ops call the projection first and the visual reference second
+    pub projection_first: bool,
+    /// a finalize_customized_xml whose transformer fails comes in front of the real finalize call
+    pub failed_finalize_first: bool,
+    /// an additional plain finalize() after the op with this index ("checkpoint")
+    pub checkpoint_after: Option<usize>,
 }
 
 #[derive(Debug, Default)]
@@ -109,6 +115,15 @@ pub fn describe(p: &Program) -> String {
     for op in &p.ops {
         s.push_str("; ");
         s.push_str(&describe_op(op));
+    }
+    if p.projection_first {
+        s.push_str("; [images: projection call first, visual reference second]");
+    }
+    if let Some(c) = p.checkpoint_after {
+        s.push_str(&format!("; [additional finalize() after op #{c}]"));
+    }
+    if p.failed_finalize_first {
+        s.push_str("; finalize_customized_xml(transformer fails)");
     }
     s.push_str(match (p.no_finalize, p.xml_mode) {
         (true, _) => "; <dropped without finalize>",
@@ -228,68 +243,73 @@ fn run_inner(dev: Dev, p: &Program, o: &ExecOpts, res: &mut RunResult, cur: &mut
                 if let Some(v) = &img.sensor_serial {
                     iw.set_sensor_serial(v);
                 }
-                if let Some(v) = &img.visual {
-                    let mut d = src(&v.blob.data, o);
-                    let mut ms = v.mask.as_ref().map(|m| src(&m.data, o));
-                    let props = VisualReferenceImageProperties { width: v.width as u32, height: v.height as u32 };
-                    tr!(
-                        i,
-                        "add_visual_reference",
-                        iw.add_visual_reference(fmt_to_e57(&v.format), &mut d, props, ms.as_mut().map(|m| m as &mut dyn std::io::Read))
-                    );
-                }
-                if let Some(r) = &img.projection {
-                    let mut d = src(&r.blob.data, o);
-                    let mut ms = r.mask.as_ref().map(|m| src(&m.data, o));
-                    let mask = ms.as_mut().map(|m| m as &mut dyn std::io::Read);
-                    let (wd, ht) = (r.width as u32, r.height as u32);
-                    match &r.proj {
-                        Some(m::ProjKind::Pinhole { focal, pw, ph, ppx, ppy }) => tr!(
-                            i,
-                            "add_pinhole",
-                            iw.add_pinhole(
-                                fmt_to_e57(&r.format),
-                                &mut d,
-                                PinholeImageProperties {
-                                    width: wd,
-                                    height: ht,
-                                    focal_length: *focal,
-                                    pixel_width: *pw,
-                                    pixel_height: *ph,
-                                    principal_x: *ppx,
-                                    principal_y: *ppy
-                                },
-                                mask
-                            )
-                        ),
-                        Some(m::ProjKind::Spherical { pw, ph }) => tr!(
-                            i,
-                            "add_spherical",
-                            iw.add_spherical(
-                                fmt_to_e57(&r.format),
-                                &mut d,
-                                SphericalImageProperties { width: wd, height: ht, pixel_width: *pw, pixel_height: *ph },
-                                mask
-                            )
-                        ),
-                        Some(m::ProjKind::Cylindrical { radius, ppy, pw, ph }) => tr!(
-                            i,
-                            "add_cylindrical",
-                            iw.add_cylindrical(
-                                fmt_to_e57(&r.format),
-                                &mut d,
-                                CylindricalImageProperties {
-                                    width: wd,
-                                    height: ht,
-                                    radius: *radius,
-                                    principal_y: *ppy,
-                                    pixel_width: *pw,
-                                    pixel_height: *ph
-                                },
-                                mask
-                            )
-                        ),
-                        None => {}
+                for step in if p.projection_first { [1, 0] } else { [0, 1] } {
+                    if step == 0 {
+                        if let Some(v) = &img.visual {
+                            let mut d = src(&v.blob.data, o);
+                            let mut ms = v.mask.as_ref().map(|m| src(&m.data, o));
+                            let props = VisualReferenceImageProperties { width: v.width as u32, height: v.height as u32 };
+                            tr!(
+                                i,
+                                "add_visual_reference",
+                                iw.add_visual_reference(fmt_to_e57(&v.format), &mut d, props, ms.as_mut().map(|m| m as &mut dyn std::io::Read))
+                            );
+                        }
+                    } else {
+                        if let Some(r) = &img.projection {
+                            let mut d = src(&r.blob.data, o);
+                            let mut ms = r.mask.as_ref().map(|m| src(&m.data, o));
+                            let mask = ms.as_mut().map(|m| m as &mut dyn std::io::Read);
+                            let (wd, ht) = (r.width as u32, r.height as u32);
+                            match &r.proj {
+                                Some(m::ProjKind::Pinhole { focal, pw, ph, ppx, ppy }) => tr!(
+                                    i,
+                                    "add_pinhole",
+                                    iw.add_pinhole(
+                                        fmt_to_e57(&r.format),
+                                        &mut d,
+                                        PinholeImageProperties {
+                                            width: wd,
+                                            height: ht,
+                                            focal_length: *focal,
+                                            pixel_width: *pw,
+                                            pixel_height: *ph,
+                                            principal_x: *ppx,
+                                            principal_y: *ppy
+                                        },
+                                        mask
+                                    )
+                                ),
+                                Some(m::ProjKind::Spherical { pw, ph }) => tr!(
+                                    i,
+                                    "add_spherical",
+                                    iw.add_spherical(
+                                        fmt_to_e57(&r.format),
+                                        &mut d,
+                                        SphericalImageProperties { width: wd, height: ht, pixel_width: *pw, pixel_height: *ph },
+                                        mask
+                                    )
+                                ),
+                                Some(m::ProjKind::Cylindrical { radius, ppy, pw, ph }) => tr!(
+                                    i,
+                                    "add_cylindrical",
+                                    iw.add_cylindrical(
+                                        fmt_to_e57(&r.format),
+                                        &mut d,
+                                        CylindricalImageProperties {
+                                            width: wd,
+                                            height: ht,
+                                            radius: *radius,
+                                            principal_y: *ppy,
+                                            pixel_width: *pw,
+                                            pixel_height: *ph
+                                        },
+                                        mask
+                                    )
+                                ),
+                                None => {}
+                            }
+                        }
                     }
                 }
                 tr!(i, "ImageWriter::finalize", iw.finalize());
@@ -349,10 +369,20 @@ fn run_inner(dev: Dev, p: &Program, o: &ExecOpts, res: &mut RunResult, cur: &mut
                 }
             }
         }
+        if p.checkpoint_after == Some(i) {
+            tr!(i, "finalize (checkpoint)", w.finalize());
+        }
     }
     *cur = p.ops.len();
     if p.no_finalize {
         return;
+    }
+    if p.failed_finalize_first {
+        res.api_calls += 1;
+        if w.finalize_customized_xml(|_| Err(e57::Error::Invalid { desc: "transformer gives up".into(), source: None })).is_ok() {
+            res.err = Some((p.ops.len(), "finalize_customized_xml".to_string(), "SUCCESS although the transformer failed".into()));
+            return;
+        }
     }
     if p.xml_mode == 0 {
         tr!(p.ops.len(), "finalize", w.finalize());
